@@ -137,7 +137,10 @@ def build_docx(spec) -> bytes:
     order can differ; spec["rel_order"] lists the rids in the order they are written to the .rels part."""
     body = []
     for k, pl in enumerate(spec["units"][0], 1):
-        body.append(f'<w:p><w:r><w:t>para {k}</w:t></w:r>{_docx_drawing(pl["rid"], k, pl["style"] == "external")}</w:p>')
+        para = f'<w:p><w:r><w:t>para {k}</w:t></w:r>{_docx_drawing(pl["rid"], k, pl["style"] == "external")}</w:p>'
+        if pl.get("in_table"):
+            para = f'<w:tbl><w:tr><w:tc>{para}</w:tc><w:tc><w:p><w:r><w:t>c{k}</w:t></w:r></w:p></w:tc></w:tr></w:tbl>'
+        body.append(para)
     doc = (f'<?xml version="1.0" encoding="UTF-8" standalone="yes"?><w:document xmlns:w="{W}" xmlns:a="{A}" '
            f'xmlns:pic="{PIC}" xmlns:wp="{WP}" xmlns:r="{REL}"><w:body>' + "".join(body) + '<w:sectPr/></w:body></w:document>')
     by_rid = {}
@@ -180,7 +183,8 @@ def build_pptx(spec) -> bytes:
         pics, rels, seen = [], [], set()
         for k, pl in enumerate(unit, 1):
             # shapes are laid out top to bottom in document order (the extractor sorts by position)
-            pics.append(_pptx_pic(pl["rid"], k, 1000, 1000 * k))
+            # (or all at one position: the stable sort must then keep the source order)
+            pics.append(_pptx_pic(pl["rid"], k, 1000, 1000 if spec.get("same_pos") else 1000 * k))
             if pl["rid"] not in seen:
                 seen.add(pl["rid"])
                 rels.append((pl["rid"], T_IMAGE, pl["target"], "External" if pl["style"] == "external" else ""))
